@@ -1,5 +1,5 @@
 /-
-C30 — invariant of the concurrent notification system (core Lean only).
+C30 — invariant of the concurrent notification / migration system (core Lean only).
 -/
 import TdModel.Model.C30Conc
 import TdModel.Lemmas.C30
@@ -9,10 +9,6 @@ open TdModel
 
 theorem crun_cons (c : CSt) (a : Act) (as : List Act) : crun c (a :: as) = crun (cstep c a) as := rfl
 
-theorem adv_done (s : St) (t : Thread) (h : t.pc = 5) : advThread s t = (s, t) := by
-  unfold advThread
-  cases t.n.kind <;> simp [h]
-
 theorem not_skips_eligible {p dc : Int} (h : skips p dc = false) : dc = p ∨ p = 0 ∨ dc = 0 := by
   simp only [skips, Bool.and_eq_false_iff, decide_eq_false_iff_not, Decidable.not_not] at h
   rcases h with (h | h) | h
@@ -20,66 +16,107 @@ theorem not_skips_eligible {p dc : Int} (h : skips p dc = false) : dc = p ∨ p 
   · exact Or.inr (Or.inl h)
   · exact Or.inl h.symm
 
-/-- What one atomic step does to the storage and to the stepping notification. -/
-theorem adv_cases (s : St) (t : Thread) :
-    let r := advThread s t
-    r.2.n = t.n ∧
-    ((2 ≤ t.pc → t.pc ≤ 4 → eligible t) → 2 ≤ r.2.pc → r.2.pc ≤ 4 → eligible r.2) ∧
-    (r.1.stored = s.stored ∨
-      (t.n.kind = .regular ∧ t.pc = 4 ∧ r.2.pc = 5 ∧ r.2.saw = t.saw ∧ r.2.addr = t.addr ∧
-        r.1.stored = some (storedOf t.n t.addr))) := by
-  unfold advThread
-  cases hk : t.n.kind with
-  | cdn =>
-    simp only
-    split
-    · exact ⟨rfl, by intro _ _ h2; simp at h2, Or.inl rfl⟩
-    · exact ⟨rfl, fun h => h, Or.inl rfl⟩
-  | regular =>
-    simp only
-    split
-    · exact ⟨rfl, by intro _ h1 _; simp at h1, Or.inl rfl⟩
-    · split
-      · split
-        · exact ⟨rfl, by intro _ _ h2; simp at h2, Or.inl rfl⟩
-        · rename_i hs
-          refine ⟨rfl, ?_, Or.inl rfl⟩
-          intro _ _ _
-          exact not_skips_eligible (by simpa using hs)
-      · split
-        · rename_i h2
-          exact ⟨rfl, fun h _ _ => h (by omega) (by omega), Or.inl rfl⟩
-        · split
-          · rename_i h3
-            split
-            · exact ⟨rfl, by intro _ _ h2; simp at h2, Or.inl rfl⟩
-            · split
-              · exact ⟨rfl, by intro _ _ h2; simp at h2, Or.inl rfl⟩
-              · exact ⟨rfl, fun h _ _ => h (by omega) (by omega), Or.inl rfl⟩
-          · split
-            · rename_i h4
-              split
-              · exact ⟨rfl, by intro _ _ h2; simp at h2, Or.inl rfl⟩
-              · exact ⟨rfl, by intro _ _ h2; simp at h2, Or.inr ⟨trivial, h4, rfl, rfl, rfl, rfl⟩⟩
-            · exact ⟨rfl, fun h => h, Or.inl rfl⟩
+/-- Between its test and its save a regular notification is eligible, and what it is about to write
+is its own data. -/
+def Mid (t : Thread) : Prop :=
+  t.n.kind = .regular → t.done = false →
+    (2 ≤ t.pc → t.pc ≤ 4 → eligible t) ∧ (t.pc = 4 → ∃ addr, t.pending = storedOf t.n addr)
 
-/-- Invariant: the storage holds the initial content or what one finished, regular, eligible
-notification wrote as a whole; every regular notification between its primary-DC test and its
-save is eligible; slots beyond `count` are empty. -/
+/-- A regular notification that has written. -/
+def Wrote (t : Thread) : Prop :=
+  t.n.kind = .regular ∧ t.done = false ∧ t.pc = 5 ∧ eligible t ∧ ∃ addr, t.pending = storedOf t.n addr
+
+theorem adv_wrote (s : St) (t : Thread) (h : Wrote t) : advThread s t = (s, { t with done := true }) := by
+  obtain ⟨hk, hd, hpc, _, _⟩ := h
+  simp [advThread, hd, hk, hpc]
+
+/-- What one atomic step does to the storage and to the stepping agent. -/
+theorem adv_cases (s : St) (t : Thread) (hm : Mid t) :
+    (advThread s t).2.n = t.n ∧ Mid (advThread s t).2 ∧
+    ((advThread s t).1.stored = s.stored ∨
+      (Wrote (advThread s t).2 ∧ (advThread s t).1.stored = some (advThread s t).2.pending)) := by
+  unfold advThread
+  by_cases hd : t.done = true
+  · rw [if_pos hd]; exact ⟨rfl, hm, Or.inl rfl⟩
+  · have hd' : t.done = false := by simpa using hd
+    simp only [hd', Bool.false_eq_true, if_false]
+    cases hk : t.n.kind with
+    | cdn =>
+      simp only
+      split
+      · exact ⟨rfl, by intro h; simp [hk] at h, Or.inl rfl⟩
+      · exact ⟨rfl, by intro h; simp [hk] at h, Or.inl rfl⟩
+    | migrate =>
+      simp only
+      split
+      · exact ⟨rfl, by intro h; simp [hk] at h, Or.inl rfl⟩
+      · exact ⟨rfl, by intro h; simp [hk] at h, Or.inl rfl⟩
+    | regular =>
+      have hm' := hm hk hd'
+      simp only
+      split
+      · exact ⟨rfl, by intro _ _; exact ⟨by intro h1; simp at h1, by intro h1; simp at h1⟩, Or.inl rfl⟩
+      · split
+        · split
+          · exact ⟨rfl, by intro _ h; simp at h, Or.inl rfl⟩
+          · rename_i hs
+            refine ⟨rfl, ?_, Or.inl rfl⟩
+            intro _ _
+            exact ⟨fun _ _ => not_skips_eligible (by simpa using hs), by intro h1; simp at h1⟩
+        · split
+          · rename_i h2
+            refine ⟨rfl, ?_, Or.inl rfl⟩
+            intro _ _
+            exact ⟨fun _ _ => hm'.1 (by omega) (by omega), by intro h1; simp at h1⟩
+          · split
+            · rename_i h3
+              split
+              · exact ⟨rfl, by intro _ h; simp at h, Or.inl rfl⟩
+              · split
+                · exact ⟨rfl, by intro _ h; simp at h, Or.inl rfl⟩
+                · refine ⟨rfl, ?_, Or.inl rfl⟩
+                  intro _ _
+                  exact ⟨fun _ _ => hm'.1 (by omega) (by omega), fun _ => ⟨_, rfl⟩⟩
+            · split
+              · rename_i h4
+                split
+                · exact ⟨rfl, by intro _ h; simp at h, Or.inl rfl⟩
+                · refine ⟨rfl, ?_, Or.inr ⟨⟨hk, rfl, rfl, hm'.1 (by omega) (by omega), hm'.2 h4⟩, rfl⟩⟩
+                  intro _ _
+                  exact ⟨by intro _ h1; simp at h1, by intro h1; simp at h1⟩
+              · exact ⟨rfl, by intro _ h; simp at h, Or.inl rfl⟩
+
+/-- Invariant: the storage holds the initial content or what one regular, eligible notification
+wrote as a whole; every regular notification between its test and its save satisfies `Mid`;
+slots beyond `count` are empty. -/
 structure CInv (init : Option Stored) (c : CSt) : Prop where
   stored : c.st.stored = init ∨
-    ∃ i t, c.threads i = some t ∧ t.pc = 5 ∧ t.n.kind = .regular ∧ eligible t ∧
-      c.st.stored = some (storedOf t.n t.addr)
-  mid : ∀ i t, c.threads i = some t → 2 ≤ t.pc → t.pc ≤ 4 → eligible t
+    ∃ i t, c.threads i = some t ∧ t.n.kind = .regular ∧ t.pc = 5 ∧ eligible t ∧
+      (∃ addr, t.pending = storedOf t.n addr) ∧ c.st.stored = some t.pending
+  mid : ∀ i t, c.threads i = some t → Mid t
   free : ∀ i, c.count ≤ i → c.threads i = none
+
+theorem mid_new (n : Notif) : Mid (Thread.new n) := by
+  intro _ _
+  exact ⟨by intro h; simp [Thread.new] at h, by intro h; simp [Thread.new] at h⟩
 
 theorem cinv_init (s : St) : CInv s.stored (cinit s) :=
   ⟨Or.inl rfl, by intro i t h; simp [cinit] at h, by intro i _; rfl⟩
 
+/-- Fields that never change once a regular notification has reached pc 5. -/
+theorem adv_pc5 (s : St) (t : Thread) (hk : t.n.kind = .regular) (h5 : t.pc = 5) :
+    (advThread s t).1 = s ∧ (advThread s t).2.n = t.n ∧ (advThread s t).2.pc = 5 ∧
+      (advThread s t).2.saw = t.saw ∧ (advThread s t).2.pending = t.pending := by
+  unfold advThread
+  by_cases hd : t.done = true
+  · simp [hd, h5]
+  · have hd' : t.done = false := by simpa using hd
+    simp [hd', hk, h5]
+
 theorem cinv_step (init : Option Stored) (c : CSt) (a : Act) (h : CInv init c) : CInv init (cstep c a) := by
   cases a with
   | spawn n =>
-    simp only [cstep]
+    simp only [cstep, cstepWith]
     refine ⟨?_, ?_, ?_⟩
     · rcases h.stored with h1 | ⟨i, t, ht, h2⟩
       · exact Or.inl h1
@@ -91,7 +128,7 @@ theorem cinv_step (init : Option Stored) (c : CSt) (a : Act) (h : CInv init c) :
     · intro i t ht
       simp only [updT] at ht
       split at ht
-      · cases ht; intro h1; simp at h1
+      · cases ht; exact mid_new n
       · exact h.mid i t ht
     · intro i hi
       dsimp only at hi
@@ -100,36 +137,33 @@ theorem cinv_step (init : Option Stored) (c : CSt) (a : Act) (h : CInv init c) :
       · omega
       · exact h.free i (by omega)
   | adv i =>
-    simp only [cstep]
+    simp only [cstep, cstepWith]
     cases hti : c.threads i with
     | none => simpa [hti] using h
     | some t =>
       simp only
-      have hc := adv_cases c.st t
-      simp only at hc
-      obtain ⟨hn, hel, hst⟩ := hc
-      have hmid_t := h.mid i t hti
+      obtain ⟨hn, hmid, hst⟩ := adv_cases c.st t (h.mid i t hti)
       refine ⟨?_, ?_, ?_⟩
-      · rcases hst with hst | ⟨hk, hpc, hpc', hsaw, haddr, hst⟩
-        · rcases h.stored with h1 | ⟨j, tj, htj, hj5, hjk, hje, hjs⟩
+      · rcases hst with hst | ⟨hw, hst⟩
+        · rcases h.stored with h1 | ⟨j, tj, htj, hjk, hj5, hje, hjp, hjs⟩
           · exact Or.inl (by rw [hst]; exact h1)
           · right
-            refine ⟨j, tj, ?_, hj5, hjk, hje, by rw [hst]; exact hjs⟩
             by_cases hji : j = i
             · subst hji
               rw [hti] at htj; cases htj
-              simp [updT, adv_done c.st t hj5]
-            · simp [updT, hji, htj]
+              obtain ⟨_, h2, h3, h4, h5⟩ := adv_pc5 c.st t hjk hj5
+              refine ⟨j, (advThread c.st t).2, by simp [updT], by rw [h2]; exact hjk, h3, ?_, ?_, ?_⟩
+              · unfold eligible at hje ⊢; rw [h2, h4]; exact hje
+              · rw [h2, h5]; exact hjp
+              · rw [hst, h5]; exact hjs
+            · exact ⟨j, tj, by simp [updT, hji, htj], hjk, hj5, hje, hjp, by rw [hst]; exact hjs⟩
         · right
-          refine ⟨i, (advThread c.st t).2, by simp [updT], hpc', by rw [hn]; exact hk, ?_, ?_⟩
-          · have he := hmid_t (by omega) (by omega)
-            unfold eligible at he ⊢
-            rw [hn, hsaw]; exact he
-          · rw [hst, hn, haddr]
+          obtain ⟨hk, _, hpc, hel, hp⟩ := hw
+          exact ⟨i, (advThread c.st t).2, by simp [updT], hk, hpc, hel, hp, hst⟩
       · intro j tj htj
         simp only [updT] at htj
         split at htj
-        · cases htj; exact hel hmid_t
+        · cases htj; exact hmid
         · exact h.mid j tj htj
       · intro j hj
         simp only [updT]
@@ -144,25 +178,26 @@ theorem cinv_run (init : Option Stored) (as : List Act) : ∀ c, CInv init c →
   | nil => intro c h; exact h
   | cons a r ih => intro c h; rw [crun_cons]; exact ih _ (cinv_step init c a h)
 
-/-- Run alone, a notification does exactly what the sequential model `step` does. -/
+/-- Run alone, an agent does exactly what the sequential model `step` does. -/
 theorem alone_eq_step (s : St) (n : Notif) : (alone s n).1 = (step s n).1 ∧ (alone s n).2.res = (step s n).2 := by
-  unfold alone step
+  unfold alone aloneWith step
   cases hk : n.kind with
-  | cdn => simp [advThread, hk, onCDNSession]
+  | cdn => simp [advThread, Thread.new, hk, onCDNSession]
+  | migrate => simp [advThread, Thread.new, hk, migrate]
   | regular =>
     simp only [onSession]
     cases hs : skips s.session.dc n.cfgDC with
-    | true => simp [advThread, hk, hs]
+    | true => simp [advThread, Thread.new, hk, hs]
     | false =>
       unfold saveSession
       cases hst : s.hasStorage with
-      | false => simp [advThread, hk, hs, hst]
+      | false => simp [advThread, Thread.new, hk, hs, hst]
       | true =>
         cases hf : n.fault with
         | none =>
-          simp [advThread, hk, hs, hst, hf, storedOf]
+          simp [advThread, Thread.new, hk, hs, hst, hf, storedOf]
           cases s.stored <;> rfl
-        | loadErr => simp [advThread, hk, hs, hst, hf]
-        | saveErr => simp [advThread, hk, hs, hst, hf]
+        | loadErr => simp [advThread, Thread.new, hk, hs, hst, hf]
+        | saveErr => simp [advThread, Thread.new, hk, hs, hst, hf]
 
 end TdModel.C30
